@@ -24,15 +24,24 @@ Definition SW (l : list ev) (eff : list (string * list gv)) (st : list (string *
   {| w_stream := l; w_eff := eff; w_store := st |}.
 Definition has_buf (st : list (string * gv)) (b : bytes) : Prop := assoc_s "self._buffer" st = Some (gbytes b).
 
-(* what _recv / read leave alone in the store: every variable but their own *)
+(* what _recv / read leave alone in the store: every variable but their own locals (whatever they are called) and the
+   buffer *)
 Definition frame (st' st : list (string * gv)) : Prop :=
-  forall k, String.eqb k "self._buffer" = false -> String.eqb k "_recv.data" = false -> String.eqb k "read.data" = false ->
+  forall k, String.eqb k "self._buffer" = false -> String.prefix "_recv." k = false -> String.prefix "read." k = false ->
             assoc_s k st' = assoc_s k st.
 Lemma frame_refl st : frame st st.  Proof. intros k _ _ _. reflexivity. Qed.
 Lemma frame_trans a b c : frame a b -> frame b c -> frame a c.
 Proof. intros H1 H2 k A B C. now rewrite (H1 k A B C), (H2 k A B C). Qed.
+Lemma eqb_by_prefix p k lit : String.prefix p k = false -> String.prefix p lit = true -> String.eqb k lit = false.
+Proof.
+  intros Hk Hl. destruct (String.eqb k lit) eqn:E; [|reflexivity]. apply String.eqb_eq in E. subst. congruence.
+Qed.
 Ltac frame_tac := let k := fresh "k" in let A := fresh in let B := fresh in let C := fresh in
-  intros k A B C; cbn [assoc_s]; rewrite ?A, ?B, ?C; reflexivity.
+  intros k A B C; cbn [assoc_s];
+  repeat match goal with
+         | |- context [String.eqb k ?lit] =>
+             first [ rewrite A | rewrite (eqb_by_prefix "_recv." k lit B eq_refl) | rewrite (eqb_by_prefix "read." k lit C eq_refl) ]
+         end; reflexivity.
 
 Ltac io := cbv beta iota zeta delta [fn_result seqIO bindIO retIO raiseIO liftR io_recv io_set io_get g_catchIO
                                       w_stream w_eff w_store existsb exn_eqb rcv].
@@ -197,7 +206,7 @@ Lemma rl_body_io fuel l b ln eff st : has_buf st b -> has_line st ln -> (length 
 Proof.
   intros Hb Hl Hf. first [pose proof T_readline as Hin; untranslated Hin | idtac].
   all: destruct (read_io 1 l b eff st fuel Hb Hf) as (st1 & Hr & Hb1 & Hfr).
-  all: assert (Hl1 : assoc_s "readline.line" st1 = Some (gbytes ln)) by (rewrite (Hfr "readline.line"%string) by reflexivity; exact Hl).
+  all: assert (Hl1 : assoc_s "readline.line" st1 = Some (gbytes ln)) by (rewrite (Hfr "readline.line"%string eq_refl eq_refl eq_refl); exact Hl).
   all: assert (Hb1' : assoc_s "self._buffer" st1 = Some (gbytes (buf (snd (sock_read_aux 1 b l))))) by exact Hb1.
   all: unfold py_sockreadline_body1, seqIO. all: unfold bindIO at 1 2. all: change (gint 1) with (gint (Z.of_nat 1)). all: rewrite Hr.
   all: unfold SW, has_buf, has_line in *.
